@@ -161,7 +161,7 @@ static std::string RunConfig(int workers, int fetchers, uint64_t& n_blocks)
     RefLedger L;
     L.AddGenesis(Params().GenesisBlock());
     SetMockTime(Params().GenesisBlock().nTime + 600 * 100000);
-    MineEmpty(n, L, 112);
+    MineEmpty(n, L, 130); // >= 30 mature coinbases: every block of both passes spends coinbases only
     std::string obs;
     auto coins_at = [&](const uint256& tip) {
         std::vector<std::pair<COutPoint, RefCoin>> v;
@@ -172,6 +172,9 @@ static std::string RunConfig(int workers, int fetchers, uint64_t& n_blocks)
         return v;
     };
     // bad = index of the tx with the failing script (-1: none), ntx transactions with 1-3 inputs each
+    // cached = 1: the valid transactions were accepted to the mempool first, so ConnectBlock finds them in the script
+    // execution cache and has no checks to queue for them; only the failing transaction's scripts reach the workers
+    for (int cached = 0; cached < 2; cached++)
     for (int bad = -1; bad < 4; bad++) {
         uint256 tip = n.tip()->GetBlockHash();
         auto coins = coins_at(tip);
@@ -182,11 +185,17 @@ static std::string RunConfig(int workers, int fetchers, uint64_t& n_blocks)
             CAmount total = 0;
             int nin = 1 + t % 3;
             for (int k = 0; k < nin; k++, ci++) { ins.push_back({coins[ci].first, 0xffffffff, !(t == bad && k == nin - 1)}); total += coins[ci].second.value; }
-            txs.push_back(MakeTransactionRef(MakeTx(ins, {{total - 1000, OpTrueSpk()}, {0, OpTrueSpk()}})));
+            if (cached) txs.push_back(MakeTransactionRef(MakeTx(ins, {{total - 1000, OpTrueSpk()}})));   // no dust output: must pass mempool policy
+            else txs.push_back(MakeTransactionRef(MakeTx(ins, {{total - 1000, OpTrueSpk()}, {0, OpTrueSpk()}})));
+            if (cached && t != bad) {
+                auto res = n.SubmitTx(txs.back());
+                bool in_pool = res.m_result_type == MempoolAcceptResult::ResultType::VALID || res.m_state.GetRejectReason() == "txn-already-in-mempool";
+                if (!in_pool) obs += "[HARNESS could not pre-accept tx " + std::to_string(t) + ": " + res.m_state.ToString() + "] ";
+            }
         }
         BlockOpts bo;
         bo.fees = 1000 * (CAmount)txs.size();
-        bo.extra_nonce = bad + 2;
+        bo.extra_nonce = bad + 2 + 10 * cached;
         CBlock b = MakeBlock(n, n.tip(), txs, bo);
         BlockResult r = n.ProcessBlock(b);
         n_blocks++;
@@ -194,7 +203,7 @@ static std::string RunConfig(int workers, int fetchers, uint64_t& n_blocks)
         if (active) L.Add(b);
         uint64_t dig = 0;
         for (auto& [op, c] : n.UtxoByCursor()) { dig = dig * 1000003 + op.hash.ToUint256().GetUint64(0) + op.n; dig = dig * 31 + (uint64_t)c.out.nValue + c.nHeight * 2 + c.fCoinBase; }
-        obs += "bad=" + std::to_string(bad) + " valid=" + std::to_string(r.valid) + " result=" + std::to_string((int)r.result) + " active=" + std::to_string(active) + " utxo=" + std::to_string(dig) + "; ";
+        obs += std::string(cached ? "cached " : "") + "bad=" + std::to_string(bad) + " valid=" + std::to_string(r.valid) + " result=" + std::to_string((int)r.result) + " active=" + std::to_string(active) + " utxo=" + std::to_string(dig) + "; ";
         // the serial expectation, independent of any run: valid iff bad == -1
         if ((bad == -1) != active) obs += "[UNEXPECTED verdict] ";
     }
@@ -220,6 +229,7 @@ int main(int argc, char** argv)
         std::vector<int> fs = big ? std::vector<int>{0, 1, 2, 4, 16} : std::vector<int>{0, 2};
         uint64_t n_blocks = 0, n_cfg = 0;
         std::string base = d::RunConfig(0, 0, n_blocks);
+        if (base.find("[HARNESS") != std::string::npos) { printf("HARNESS-ERROR property=C14 %s\n", base.c_str()); return 2; }
         if (base.find("UNEXPECTED") != std::string::npos) vx::violation("C14d-serial-verdict", "serial configuration gives an unexpected verdict: " + base, base);
         for (int w : ws) for (int f : fs) {
             if (w == 0 && f == 0) continue;
@@ -230,7 +240,7 @@ int main(int argc, char** argv)
         }
         E.set("sweep_configurations", n_cfg + 1);
         E.set("sweep_blocks_connected", n_blocks);
-        E.sample("config sweep (free-running threads): blocks with the failing script in tx -1(none),0,1,2,3 under workers x fetchers; serial observations: " + base.substr(0, 200));
+        E.sample("config sweep (free-running threads): blocks with the failing script in tx -1(none),0,1,2,3, once with cold caches and once with the other transactions pre-accepted to the mempool (script-execution-cache hits), under workers x fetchers; serial observations: " + base.substr(0, 200));
     }
 
     LogInstance().DisableLogging();
